@@ -117,7 +117,10 @@ struct StringStream {
     }
 
     inline void operator+=(const StringStream<Char_T> &stream) {
-        write(stream.First(), stream.Length());
+        const SizeT len = stream.Length();
+
+        Expect(len); // 'stream' can be this one.
+        write(stream.First(), len);
     }
 
     inline void operator+=(const String<Char_T> &string) {
